@@ -187,7 +187,7 @@ def load_known():
 
 def match_known(known, prop, role):
     for k in known:
-        if k['property'] == prop and k.get('status', 'known') == 'known' and (role == k['role'] or role.startswith(k['role'] + '/') or role.startswith(k['role'] + ':')):
+        if k['property'] == prop and k.get('status', 'known') == 'known' and role.startswith(k['role']):
             return k
     return None
 
